@@ -1339,15 +1339,22 @@ class Node:
             disconnect_reason: Reason for the connection being disconnected,
                 one of the `PEER_DISCONNECT_REASON_*` constant values
         """
-        peer_socket = self.peer_sockets.get(conn.ident)
+        # a connection thread (e.g. one rejecting a CEA) and the node thread
+        # (the peer hanging up at the same moment) may both get here for the
+        # same connection; only the one that takes the socket closes it
+        peer_socket = self.peer_sockets.pop(conn.ident, None)
         if peer_socket:
             self.connection_logger.info(f"{conn} shutting down socket")
-            # rfc6733 states TCP sockets must be closed with a RESET call,
-            # while sctp sockets must be aborted
-            if conn.socket_proto == PEER_TRANSPORT_TCP:
-                peer_socket.setsockopt(
-                    socket.SOL_SOCKET, socket.SO_LINGER,
-                    struct.pack("ii", 1, 0))
+            try:
+                # rfc6733 states TCP sockets must be closed with a RESET call,
+                # while sctp sockets must be aborted
+                if conn.socket_proto == PEER_TRANSPORT_TCP:
+                    peer_socket.setsockopt(
+                        socket.SOL_SOCKET, socket.SO_LINGER,
+                        struct.pack("ii", 1, 0))
+            except OSError as e:
+                self.connection_logger.debug(
+                    f"{conn} socket is gone already: {e}")
             peer_socket.close()
             conn.close(False)
 
@@ -1535,14 +1542,12 @@ class Node:
                 one of the `PEER_DISCONNECT_REASON_*` constant values.
 
         """
-        if conn.ident in self.connections:
-            del self.connections[conn.ident]
-        if conn.ident in self.peer_sockets:
-            del self.peer_sockets[conn.ident]
+        # may run on two threads at once for the same connection
+        self.connections.pop(conn.ident, None)
+        self.peer_sockets.pop(conn.ident, None)
         if self.socket_peers.get(conn.socket_fileno) is conn:
-            del self.socket_peers[conn.socket_fileno]
-        if conn.ident in self._half_ready_connections:
-            del self._half_ready_connections[conn.ident]
+            self.socket_peers.pop(conn.socket_fileno, None)
+        self._half_ready_connections.pop(conn.ident, None)
         # requests of this connection that will never be answered any more
         for message_id in list(self._origin_waiting_answer):
             if message_id.startswith(f"{conn.ident}:"):
@@ -1562,8 +1567,7 @@ class Node:
 
         # Remove pending answer tracking; we cannot know if the peer will
         # persist its hop-by-hop IDs over reconnect.
-        if conn.ident in self._peer_waiting_answer:
-            del self._peer_waiting_answer[conn.ident]
+        self._peer_waiting_answer.pop(conn.ident, None)
 
         # Check if this was the last available peer for an app and clear app
         # ready flag if so, resulting in `wait_for_ready` to block again.
